@@ -147,6 +147,26 @@ func main() {
 	op, ok = ar.FindCmp(body(ub), "node.leafKey(arena)", "key")
 	o.Set("art.leafUbOp", "utils/art.go:upperBoundNode", op, ok, "le")
 	{
+		// structure the ART model relies on without a flag: the bound searches try the equal child and
+		// FALL BACK to the neighbouring sibling when that subtree has nothing; point lookups and
+		// iterator seeks all go through lowerBound / upperBound.
+		need := func(fact, anchor string, f *ast.FuncDecl, stmts ...string) {
+			for _, st := range stmts {
+				if f == nil || !ar.HasStmt(f.Body, st) {
+					o.ShapeErrors = append(o.ShapeErrors, fmt.Sprintf("extract:%s (%s): expected statement `%s` not found", fact, anchor, st))
+				}
+			}
+		}
+		need("art.leafLbOp", "utils/art.go:lowerBoundNode", lb,
+			"res := lowerBoundNode(arena, eq, key, depth+1)", "if res != nil { return res }", "return minLeafNode(arena, gt)")
+		need("art.leafUbOp", "utils/art.go:upperBoundNode", ub,
+			"res := upperBoundNode(arena, eq, key, depth+1)", "if res != nil { return res }", "return maxLeafNode(arena, lt)")
+		need("art.leafLbOp", "utils/art.go:artTree.Get", ar.Func("artTree.Get"), "leaf := t.lowerBound(key)")
+		need("art.leafLbOp", "utils/art.go:artTree.lowerBound", ar.Func("artTree.lowerBound"), "return lowerBoundNode(t.arena, root, key, 0)")
+		need("art.leafUbOp", "utils/art.go:artTree.upperBound", ar.Func("artTree.upperBound"), "return upperBoundNode(t.arena, root, key, 0)")
+		need("art.leafLbOp", "utils/art.go:artIterator.Seek", ar.Func("artIterator.Seek"), "leaf = it.tree.lowerBound(key)", "leaf = it.tree.upperBound(key)")
+	}
+	{
 		kb := ar.Func("keyByte")
 		val, shape := "", false
 		if kb != nil && len(kb.Body.List) == 2 {
